@@ -65,6 +65,9 @@ def c04(repo, rep):
     S.r17(repo, rep)
     O.r2r3(repo, rep, ["simulation"])
     C.r1(repo, rep, callers=["fast_SIR", "basic_discrete_SIR", "percolation_based_discrete_SIR"])
+    with rep.keep("R10d", "R10c"):
+        M.r10(repo, rep)
+    M.full_data_handoff(repo, rep)
 
 
 def c05(repo, rep):
